@@ -76,7 +76,17 @@ _re_error = regex.compile(r'''
         |
             '(?>(?>''|[^\?!*\/\[\]':"])+)'
         )!
-    )?(?P<name>\#(?>NULL!|DIV/0!|VALUE!|REF!|NUM!|NAME\?|N/A))\s*
+    )?(?P<name>\#(?>NULL!|DIV/0!|VALUE!|REF!|NUM!|NAME\?|N/A))
+    (?>  # Reference to a deleted sheet: `#REF!A1`, `#REF!$A$1:$B$2`, `#REF!A:A`.
+        (?<=\#REF!)
+        (?>
+            \$?[A-Z]{1,3}\$?[1-9]\d*(?>:\$?[A-Z]{1,3}\$?[1-9]\d*)?
+        |
+            \$?[A-Z]{1,3}:\$?[A-Z]{1,3}
+        |
+            \$?[1-9]\d*:\$?[1-9]\d*
+        )(?![_\.\w])
+    )?\s*
 ''', regex.IGNORECASE | regex.X | regex.DOTALL)
 
 
